@@ -346,6 +346,13 @@ func (s *Spec) request(r *simfw.RNG, i int, faultOK bool) Req {
 	case kind < 7: // valid POST
 		goodPost()
 		q.Intent = "valid"
+	case kind == 7 && r.Bool(): // a plain-text note (valid whatever it says)
+		q.Method = "POST"
+		q.Path = base + "/ping"
+		q.Intent = "valid"
+		q.Headers = append(q.Headers, [2]string{"Content-Type", "text/plain"})
+		q.HasBody = true
+		q.Body = "note " + rq + strings.Repeat(" more", r.Range(0, 40))
 	case kind < 9: // GET item / ping: valid, or violating the parameter declared on the path item only
 		q.Method = "GET"
 		q.Intent = "valid"
@@ -451,7 +458,7 @@ func (s *Spec) request(r *simfw.RNG, i int, faultOK bool) Req {
 		q.CLUnknown = r.Chance(1, 4)
 	}
 	op := "postItem"
-	if q.Method == "HEAD" {
+	if q.Method == "HEAD" || (q.Method == "POST" && strings.HasSuffix(q.Path, "/ping")) {
 		op = "ping"
 	}
 	if q.Method == "GET" {
